@@ -31,6 +31,7 @@ type c12Probe struct {
 	Src     string // definitions; must define func P()
 	Raw     bool   // true: Src already contains its hk() calls (gomacro-only syntax)
 	Quick   bool   // part of the quick tier
+	Invoke  string // the top-level input that runs the probe; default "P()"
 }
 
 func c12HookCall(name string) ast.Stmt {
@@ -708,6 +709,22 @@ func P() {
 	pNe += y.(int)
 	hk()
 	return
+}`},
+	{Name: "topleveldefer", Quick: true, Raw: true, Tags: []string{"defer", "top-level-defer", "pending-defer-at-top-level"},
+		Invoke: "{ defer pTopNop(); hk(); pTop = P(); hk() }", Src: `
+var pTop int
+func pTopNop() {
+	hk()
+	pTop++
+	hk()
+}
+func P() int {
+	hk()
+	defer pTopNop()
+	hk()
+	x := 3
+	hk()
+	return x * 2
 }`},
 	{Name: "blocks", Quick: true, Tags: []string{"block-locals", "closures"}, Src: `
 var pBl int
